@@ -69,8 +69,15 @@ def step_sym(am, cfg, sym, stepno, max_yields=64):
     -> (final code, [(event_without_arg, arg, stepno)])"""
     evs = []
     if sym == END:
-        code, ev = am.end(cfg)
-        return code, _conv(ev, stepno)
+        # end() may yield as well (a token still pending at end-of-input): the caller calls it again until it gives a final code
+        ov = 0
+        for _ in range(16):
+            code, ev = am.end(cfg)
+            ov += am.overrides_in_step
+            evs += _conv(ev, stepno)
+            if not code.startswith("YIELD"):
+                return code, evs
+        raise Spin("end() yields for ever", am.state_index(cfg), ov > 0)
     ov = 0
     for _ in range(max_yields):
         code, adv, ev = am.feed_byte(cfg, sym)
